@@ -1,9 +1,66 @@
+(* C01 — wire codec round trip.  Statements only; proofs are in theories/. *)
 From Coq Require Import List NArith ZArith.
-From AMS Require Import Models.
+From AMS Require Import Models PyStrFacts CodecFacts.
 Import ListNotations.
-Example C01_example :
-  decode proto_2_2 (encode {| m_node := 1; m_child := 2; m_cmd := 1; m_ack := 0; m_type := 49;
-     m_payload := [49;59;50]%N |}) =
-  DecOk {| m_node := 1; m_child := 2; m_cmd := 1; m_ack := 0; m_type := 49; m_payload := [49;59;50]%N |}.
-Proof. vm_compute. reflexivity. Qed.
-Print Assumptions C01_example.
+Local Open Scope Z_scope.
+
+(* encoding a well-formed message and decoding the result yields the same
+   message, under every supported protocol, for every payload without trailing
+   whitespace — payloads containing ';' included *)
+Theorem C01_decode_encode :
+  forall p m, In p protocols -> wf_msg m -> digits_ok (m_type m) ->
+              rstrip (m_payload m) = m_payload m ->
+              decode p (encode m) = DecOk m.
+Proof. exact decode_encode. Qed.
+Print Assumptions C01_decode_encode.
+
+(* the encoded form is 'node;child;command;ack;type;payload' + one newline and,
+   for a payload free of line terminators, contains no other line terminator *)
+Theorem C01_encode_one_line :
+  forall m, no_linebreak (m_payload m) ->
+  exists body,
+    encode m = body ++ [10%N]
+    /\ body = join delimiter (num_fields m ++ [m_payload m])
+    /\ no_linebreak body.
+Proof. exact encode_one_line. Qed.
+Print Assumptions C01_encode_one_line.
+
+(* decoding a well-formed line whose numeric fields are plain decimal and
+   re-encoding it reproduces the line up to trailing whitespace *)
+Theorem C01_encode_decode :
+  forall p line m, In p protocols -> decode p line = DecOk m ->
+  (exists f1 f2 f3 f4 f5 rest,
+      rstrip line = join delimiter [f1; f2; f3; f4; f5; rest]
+      /\ Forall (no_sep delimiter) [f1; f2; f3; f4; f5]
+      /\ Forall plain_decimal [f1; f2; f3; f4; f5]) ->
+  encode m = rstrip line ++ [10%N].
+Proof. exact encode_decode. Qed.
+Print Assumptions C01_encode_decode.
+
+(* the five protocols the statement quantifies over are exactly the generated ones *)
+Theorem C01_five_protocols : length protocols = 5%nat.
+Proof. exact tables_ok_five. Qed.
+Print Assumptions C01_five_protocols.
+
+(* non-vacuity: concrete messages meeting the hypotheses *)
+Definition ex_position : msg :=
+  {| m_node := 1; m_child := 2; m_cmd := 1; m_ack := 0; m_type := 49;
+     m_payload := [49; 46; 48; 59; 50; 46; 48; 59; 51]%N |}.   (* "1.0;2.0;3" *)
+Definition ex_idreq : msg :=
+  {| m_node := 255; m_child := 7; m_cmd := 3; m_ack := 1; m_type := 3; m_payload := [] |}.
+
+Example C01_hypotheses_satisfiable :
+  wf_msg ex_position /\ digits_ok (m_type ex_position)
+  /\ rstrip (m_payload ex_position) = m_payload ex_position
+  /\ wf_msg ex_idreq /\ digits_ok (m_type ex_idreq)
+  /\ decode proto_2_2 (encode ex_position) = DecOk ex_position
+  /\ decode proto_1_4 (encode ex_idreq) = DecOk ex_idreq.
+Proof.
+  split; [apply wf_fields_b_spec; vm_compute; reflexivity|].
+  split; [apply digits_ok_b_spec; vm_compute; reflexivity|].
+  split; [vm_compute; reflexivity|].
+  split; [apply wf_fields_b_spec; vm_compute; reflexivity|].
+  split; [apply digits_ok_b_spec; vm_compute; reflexivity|].
+  split; vm_compute; reflexivity.
+Qed.
+Print Assumptions C01_hypotheses_satisfiable.
